@@ -162,6 +162,7 @@ type vcScenario struct {
 	Script [][]json.RawMessage `json:"script"` // [op, arg]
 	Tags   []string            `json:"tags"`   // definitions used by successive tagadd actions
 	Probe  int                 `json:"probe"`  // Stream(id) probed for id in [0,probe)
+	Bad    []int               `json:"bad"`    // captures written as unreadable files (readPackets fails)
 }
 
 type vcFileEntry [3]uint64 // id, flow (client port - 1000), version (client bytes)
@@ -239,8 +240,11 @@ type vcRun struct {
 
 var vcT0 = time.Date(2020, 1, 1, 12, 0, 0, 0, time.UTC)
 
-func vcWriteCapture(dir string, k int, pkts [][2]int) (string, error) {
+func vcWriteCapture(dir string, k int, pkts [][2]int, bad bool) (string, error) {
 	name := fmt.Sprintf("c%03d.pcap", k)
+	if bad {
+		return name, os.WriteFile(filepath.Join(dir, name), []byte("this is not a capture file\n"), 0644)
+	}
 	f, err := os.Create(filepath.Join(dir, name))
 	if err != nil {
 		return "", err
@@ -581,7 +585,13 @@ func (r *vcRun) apply(op []json.RawMessage) []interface{} {
 		names := []string{}
 		caps := []interface{}{}
 		for i := 0; i < n && r.nextCap < len(r.sc.Caps); i++ {
-			name, err := vcWriteCapture(r.pcapDir, r.nextCap, r.sc.Caps[r.nextCap])
+			bad := false
+			for _, b := range r.sc.Bad {
+				if b == r.nextCap {
+					bad = true
+				}
+			}
+			name, err := vcWriteCapture(r.pcapDir, r.nextCap, r.sc.Caps[r.nextCap], bad)
 			if err != nil {
 				panic(err)
 			}
